@@ -67,10 +67,10 @@ EditMC == /\ phase = "open" /\ Len(hist) < Depth
 SpecMC == Init /\ [][AddDev \/ OpenAct \/ EditMC]_vars
 
 \* ---- C04 at design level ---------------------------------------------------------
-Of(ws, tag) == {w \in ws : w[2] = tag}
-Claimed(s, r) == r.src \notin (s.regen \ AlwaysRegen)
+Of(ws, tag) == {w \in ws : w[1] = tag}
+Claimed(s, r) == r.src \notin (s.regen \ AlwaysRegen) /\ <<r.src, r.id>> \notin s.xrels
 \* witnesses when the saved package is a (observed) given the reference state s
-W(s, oo, a) == Viol_C04(oo, s.o, s.regen, ExpToks(s), a)
+W(s, oo, a) == Viol_C04(oo, s, a)
 
 Inv_All ==
   phase = "open" =>
@@ -81,18 +81,18 @@ Inv_All ==
     \* the reference machine (any implementation refining it) is non-destructive
     /\ W(st, oo, now) = {}
     \* each detector fires exactly when the corresponding loss happens (non-vacuity)
-    /\ Of(W(st, oo, Lossy_DropModes(now)), "rel-mode-lost")
-          = {<<"C04", "rel-mode-lost", r.k>> : r \in {x \in o.rels : x.mode = "External" /\ Claimed(st, x)}}
+    /\ {w \in W(st, oo, Lossy_DropModes(now)) : w[1] \in {"rel-mode-lost", "pkg-rel-mode-lost", "part-rel-mode-lost"}}
+          = {<<RelTag(r.src, "rel-mode-lost"), r.k>> : r \in {x \in o.rels : x.mode = "External" /\ Claimed(st, x)}}
     /\ Of(W(st, oo, Lossy_PlainOnly(o, now)), "text-lost")
-          = {<<"C04", "text-lost", LabelOfTok(o.body, t)>> : t \in {x \in ExpToks(st) : LabelOfTok(o.body, x) # "plain"}}
-    /\ ((<<"C04", "rel-id-changed", "styles">> \in W(st, oo, Lossy_StylesRId1(now)))
+          = {<<"text-lost", LabelOfTok(o.body, t)>> : t \in {x \in ExpToks(st) : LabelOfTok(o.body, x) # "plain"}}
+    /\ ((<<"rel-id-changed", "styles">> \in W(st, oo, Lossy_StylesRId1(now)))
            <=> (\E r \in o.rels : r.src = DocRels /\ r.k = "styles" /\ r.id # "rId1"))
     /\ LET wp == W(st, oo, Lossy_DefaultPkgRels(now)) IN
-         \A r \in o.rels : (r.src = PkgRels /\ ~(r.id = "rId1" /\ r.k = "main")) => \E w \in wp : w[3] = r.k
+         \A r \in o.rels : (r.src = PkgRels /\ ~(r.id = "rId1" /\ r.k = "main")) => \E w \in wp : w[2] = r.k
     \* an image stored under a name that is already taken is a violation: freshness is necessary
     /\ \A p \in {q \in st.m.parts : q.k = "media" /\ q.cls # "new"} :
          LET m2 == [st.m EXCEPT !.parts = (st.m.parts \ {p}) \cup {[p EXCEPT !.h = "new"]}]
-         IN <<"C04", "media-overwritten", p.cls>> \in W(st, oo, ObsOfModel(m2, ExpToks(st)))
+         IN <<"media-overwritten", p.cls>> \in W(st, oo, ObsOfModel(m2, ExpToks(st)))
 
 Inv_ShapeWellFormed ==
   phase = "open" =>
